@@ -26,6 +26,30 @@ class Violation(Exception):
         self.detail = detail
 
 
+def blame_lark(fn):
+    """decorator for check functions that drive lark through many API calls: an exception other than the ones the
+    check handles is a violation if it was raised inside lark's own code (innermost frame under the tree under
+    test), and a harness error otherwise"""
+    import functools
+    @functools.wraps(fn)
+    def wrapper(case, ctx):
+        try:
+            return fn(case, ctx)
+        except Violation:
+            raise
+        except Exception as e:
+            tb = e.__traceback__
+            last = None
+            while tb is not None:
+                last = tb; tb = tb.tb_next
+            fname = last.tb_frame.f_code.co_filename if last is not None else ''
+            if os.path.abspath(fname).startswith(os.path.abspath(REPO) + os.sep):
+                raise Violation('lark raised %s (not a documented error) during the history' % type(e).__name__, error=str(e)[:300],
+                                where='%s:%d' % (os.path.relpath(fname, REPO), last.tb_lineno))
+            raise
+    return wrapper
+
+
 class Phase(object):
     """kind='hypothesis': strategy + max_examples (total, split over shards)
        kind='enumerate' : cases(shard, nshards) -> iterable of cases"""
